@@ -135,11 +135,17 @@ def _spec_tail(s, P, fs, ns):
         elif r < 0.78 and nd > 1:
             a = s.randint(1, nd)
             b = s.choice([x for x in range(1, nd + 1) if x != a])
-            P.add('S.combine_pops', fs, [a, b])
+            c2 = P.add('S.combine_pops', fs, [a, b])
+            if s.chance(0.3):
+                _inplace_on(s, P, c2)
         elif r < 0.84 and nd > 1:
-            P.add('S.scramble_pop_ids', fs)
+            c2 = P.add('S.scramble_pop_ids', fs)
+            if s.chance(0.3):
+                _inplace_on(s, P, c2)
         elif r < 0.9:
-            P.add('apply_anc_state_misid', fs, s.choice([0.0, 0.02, 0.3]))
+            c2 = P.add('apply_anc_state_misid', fs, s.choice([0.0, 0.02, 0.3]))
+            if s.chance(0.4):
+                _inplace_on(s, P, c2)
         else:
             data = P.add('mk_spectrum', s.randint(0, 5), [n + 1 for n in ns], s.choice([0.0, 0.2]), s.chance(0.3))
             lop = s.choice(['ll', 'll_multinom', 'll_per_bin', 'optimal_sfs_scaling', 'optimally_scaled_sfs',
@@ -188,7 +194,8 @@ def g_chain2d(s, P):
         if s.chance(0.3):
             kw['gamma2'] = _par(s, [0, -2.0])
         if s.chance(0.15) and not any(k in kw for k in ('m12', 'm21')):
-            kw[s.choice(['frozen1', 'frozen2'])] = True
+            for fz in s.sample(['frozen1', 'frozen2'], s.choice([1, 1, 2])):       # any subset, all populations frozen included
+                kw[fz] = True
         if s.chance(0.1):
             kw[s.choice(['nomut1', 'nomut2'])] = True
         if s.chance(0.15):
@@ -239,7 +246,8 @@ def g_chain3d(s, P):
     if s.chance(0.3):
         kw[s.choice(['gamma1', 'gamma2', 'gamma3'])] = _par(s, [0, -2.0, 3.0])
     if s.chance(0.1) and not kw:
-        kw[s.choice(['frozen1', 'frozen2', 'frozen3'])] = True
+        for fz in s.sample(['frozen1', 'frozen2', 'frozen3'], s.choice([1, 1, 2, 3])):
+            kw[fz] = True
     phi = P.add('Integration.three_pops', phi, xx, _T(s), _par(s, [0.5, 1.0, 2.0]), _par(s, [1.0, 2.0]), _par(s, [0.5, 1.0]), **kw)
     if s.chance(0.25):
         phi = P.add(s.choice(['phi_3D_admix_1_and_2_into_3', 'phi_3D_admix_1_and_3_into_2', 'phi_3D_admix_2_and_3_into_1']),
@@ -282,7 +290,8 @@ def g_chain4d(s, P):
     if s.chance(0.3):
         kw[s.choice(['gamma1', 'gamma4'])] = _par(s, [0, -2.0])
     if s.chance(0.1) and not kw:
-        kw[s.choice(['frozen1', 'frozen4'])] = True
+        for fz in s.sample(['frozen1', 'frozen2', 'frozen3', 'frozen4'], s.choice([1, 1, 2, 4])):
+            kw[fz] = True
     phi = P.add('Integration.four_pops', phi, xx, _T(s), _par(s, [0.5, 1.0, 2.0]), _par(s, [1.0, 2.0]), 1.0, _par(s, [0.5, 1.0]), **kw)
     if s.chance(0.5):
         order = [1, 2, 3, 4]
@@ -318,6 +327,9 @@ def g_chain5d(s, P):
     for m in ('m12', 'm15', 'm51', 'm34'):
         if s.chance(0.2):
             kw[m] = _par(s, [0, 1.0])
+    if s.chance(0.1) and not kw:
+        for fz in s.sample(['frozen1', 'frozen2', 'frozen3', 'frozen4', 'frozen5'], s.choice([1, 2, 5])):
+            kw[fz] = True
     phi = P.add('Integration.five_pops', phi, xx, s.choice([0.0, 0.01]), _par(s, [1.0, 2.0]), 1.0, 1.0, 1.0, _par(s, [0.5, 1.0]), **kw)
     if s.chance(0.5):
         order = [1, 2, 3, 4, 5]
